@@ -407,6 +407,21 @@ def gen_noise(rng, p=0.35):
     w = dict(w, id='N1', file='noise1', ops=w['ops'][:25])
     acts.append(w)
 
+    if rng.chance(0.5):
+        # a reader that parses an ordinary file before the judged one
+        acts.append({'id': 'N3', 'kind': 'raw', 'file': 'noise3',
+                     'hex': (b'#diffx: encoding=utf-8, version=1.0\n'
+                             b'#.preamble: indent=4, length=6\n    p\n'
+                             b'#.meta: format=json, length=9\n{"k": 1}\n'
+                             b'#.change:\n#..preamble: length=2\nx\n'
+                             b'#..meta: format=json, length=9\n{"k": 1}\n'
+                             b'#..file:\n'
+                             b'#...meta: format=json, length=9\n{"k": 1}\n'
+                             b'#...diff: length=2\nx\n').hex()})
+        acts.append({'id': 'N4', 'kind': 'reader', 'file': 'noise3'})
+        acts.append({'id': 'N5', 'kind': 'dom_load', 'file': 'noise3',
+                     'via': 'from_bytes'})
+
     if rng.chance(0.4):
         from dsim import domgen
         ops = domgen.gen_tree_ops(rng, 'N.T1', max_changes=2, max_files=2,
@@ -423,7 +438,8 @@ def run_noise(scn, L, out):
     scenario that is being judged.  Whatever those actors do - including
     calls the library rejects - must not change what other users observe."""
     noise = [a for a in scn.get('noise', ())
-             if isinstance(a, dict) and a.get('kind') in ('writer', 'dom')]
+             if isinstance(a, dict) and a.get('kind') in (
+                 'writer', 'dom', 'raw', 'reader', 'dom_load')]
 
     if not noise:
         return
